@@ -3,6 +3,7 @@ import copy
 from fractions import Fraction
 
 import astropy.units as u
+from astropy.time import Time
 import numpy as np
 import z3
 
@@ -53,6 +54,10 @@ def snapshot(S, obj, label, out):
                 out.append((label + "." + k, "py", getattr(obj, k)))
         out.append((label + ".meta", "py", copy.deepcopy(obj.meta)))
         out.append((label + ".type", "py", type(obj).__name__))
+    elif isinstance(obj, Time):
+        # a caller's Time object: representation attributes included (setting .format / .precision on it is a mutation)
+        out.append((label + ".time", "py", (obj.format, obj.precision, obj.scale, repr(np.asarray(obj.jd1).tolist()), repr(np.asarray(obj.jd2).tolist()),
+                                            str(obj.value))))
     elif isinstance(obj, u.Quantity):
         out.append((label + ".unit", "py", str(obj.unit)))
         snapshot(S, obj.value if obj.dtype != object else np.asarray(plain(obj.value), dtype=object), label + ".value", out)
@@ -253,6 +258,23 @@ def _(S, z):
     return [y], lambda: pb.concatenate([z, y])
 
 
+@op("time-argument", "signal", None, 2)
+def _(S, z):
+    # Time objects handed in by the caller (not in the library's own isot/9 representation), on accepting and refusing paths
+    t1 = Time(59000.25, format="mjd", precision=3)
+    t2 = Time([59000.25, 59000.5], format="mjd")
+
+    def run():
+        a = pb.Signal.like(z, start_time=t1)
+        b = pb.Signal(z.data, sample_rate=z.sample_rate, start_time=t1)
+        try:
+            pb.Signal.like(z, start_time=t2)
+        except ValueError:
+            pass
+        return (a, b)
+    return [t1, t2], run
+
+
 @op("snippet-frac", "signal", None, 2)
 def _(S, z):
     t = S.real("t")
@@ -413,8 +435,23 @@ class NoMutate(Unit):
                  "pulsarbat.transforms.dedispersion:coherent_dedispersion", "pulsarbat.transforms.dedispersion:incoherent_dedispersion",
                  "pulsarbat.contrib.misc:stft", "pulsarbat.contrib.misc:istft", "pulsarbat.utils:real_to_complex",
                  "pulsarbat.core:Signal.compute", "pulsarbat.core:Signal.persist")
-    witnesses = 0
+    witnesses = 1
     max_violations = 1
+
+    def compare(self, S, args, out, CS, cargs, cout):
+        """the same before/after comparison on the concrete run of the unpatched code (real Time, real arrays): a mutation that the
+        stand-ins of the symbolic run step over (e.g. one guarded by isinstance(x, Time)) still shows here"""
+        from pbsym.runner import _truth
+        if isinstance(cout, Raised):
+            return []
+        failed = []
+        for lab, bad in diff(CS, cout["before"], cout["after"]):
+            try:
+                if _truth(bad, CS):
+                    failed.append(lab)
+            except (KeyError, ZeroDivisionError):
+                pass
+        return [f"the concrete run changes its inputs: {failed[:3]}"] if failed else []
 
     def patches(self):
         import pulsarbat.transforms.dedispersion as D
